@@ -20,6 +20,7 @@
 #include <sys/socket.h>
 #include <sys/syscall.h>
 #include <netinet/in.h>
+#include <sys/un.h>
 #include <fcntl.h>
 #include <errno.h>
 #include <unistd.h>
@@ -47,6 +48,12 @@ static int peer_port(int fd)
 	sockaddr_storage ss; socklen_t len = sizeof ss;
 	if (getpeername(fd, (sockaddr *)&ss, &len) != 0) return -1;
 	if (ss.ss_family == AF_INET) return ntohs(((sockaddr_in *)&ss)->sin_port);
+	if (ss.ss_family == AF_UNIX) {
+		// clients bind to the abstract name "\0vc<id>"; ids start at 100000 so they never collide with TCP ports
+		sockaddr_un *un = (sockaddr_un *)&ss;
+		size_t n = len > offsetof(sockaddr_un, sun_path) ? len - offsetof(sockaddr_un, sun_path) : 0;
+		if (n > 3 && un->sun_path[0] == 0 && un->sun_path[1] == 'v' && un->sun_path[2] == 'c') return atoi(std::string(un->sun_path + 3, n - 3).c_str());
+	}
 	return -1;
 }
 static fdstate *lookup(int fd)
